@@ -4,6 +4,7 @@ model was written against.  A failing obligation here means the code moved away 
 -/
 import GoZero.Extracted.C15
 import GoZero.C15.Proofs2
+import GoZero.C15.ReprProofs
 namespace GoZero.C15.Tie
 open GoZero.C15
 
@@ -369,6 +370,70 @@ theorem tie_totalWeightsShape : GoZero.Extracted.C15.totalWeightsShape = [
   "}",
   "}",
   "return"] := rfl
+
+/-! ### core/lang/lang.go: the identity of nodes and keys (`repr(node)` is `lang.Repr(node)`, `tie_reprExprs`) -/
+
+/-- `Repr`: nil → ""; a Stringer is asked BEFORE pointers are dereferenced; pointers are followed while non-nil;
+the rest is `reprOfValue` (model: `reprOf`) -/
+theorem tie_langReprFlow : GoZero.Extracted.C15.langReprFlow = [
+  "if v == nil",
+  "  return \"\"",
+  "switch vt := v.(type)",
+  "  case fmt.Stringer",
+  "    return vt.String()",
+  "val := reflect.ValueOf(v)",
+  "for val.Kind() == reflect.Ptr && !val.IsNil()",
+  "  val = val.Elem()",
+  "return reprOfValue(val)"] := rfl
+
+/-- the switch is on the dynamic type of the dereferenced value -/
+theorem tie_reprSwitchHeader : GoZero.Extracted.C15.reprSwitchHeader = "vt := val.Interface().(type)" := rfl
+
+/-- the order of the INTERFACE cases (a value can be both): `error` before `fmt.Stringer`; all other cases are
+concrete types, of which a value has exactly one -/
+theorem tie_reprSwitchOrder : GoZero.Extracted.C15.reprSwitch.map (·.1) = [
+  "bool", "error", "float32", "float64", "fmt.Stringer", "int", "int8", "int16", "int32", "int64", "string",
+  "uint", "uint8", "uint16", "uint32", "uint64", "[]byte", "default"] := rfl
+
+/-- **SEMANTIC tie of `reprOfValue`**: the type switch as it stands in the source — for every case the function
+called, the conversion applied to the value (`int(vt)`, `uint64(vt)`: two's-complement wrap-around), the base,
+the float format / precision / bit size — INTERPRETED on every Go value that fits its type gives exactly the
+model's `reprOfValue`.  (A `FormatInt(int64(vt), 10)` in the `uint64` case gives "-1" for MaxUint64 and this
+theorem no longer holds.) -/
+theorem tie_reprSwitch_sem (v : GoVal) (hv : v.valid) (hn : v ≠ .nil) :
+    switchEval GoZero.Extracted.C15.reprSwitch v.deref = some (reprOfValue v.deref) := by
+  cases v with
+  | nil => exact absurd rfl hn
+  | int w x =>
+    have h64 := wrapSigned_id .w64 x (by have := inSigned_64 w x hv; simpa [inSigned, Width.half] using this)
+    cases w <;> simp [switchEval, GoZero.Extracted.C15.reprSwitch, GoVal.deref, GoVal.caseName, Width.suffix, evalCase,
+      evSigned, GoVal.math, convArg, reprOfValue, h64]
+  | uint w x =>
+    have h := inUnsigned_64 w x hv
+    have h64 := wrapUnsigned_id .w64 x (by simpa [inUnsigned, Width.full] using h)
+    cases w <;> simp [switchEval, GoZero.Extracted.C15.reprSwitch, GoVal.deref, GoVal.caseName, Width.suffix, evalCase,
+      evUnsigned, GoVal.math, convArg, reprOfValue, h64] <;> omega
+  | ptrInt x =>
+    simp [switchEval, GoZero.Extracted.C15.reprSwitch, GoVal.deref, GoVal.caseName, Width.suffix, evalCase, evSigned,
+      GoVal.math, convArg, reprOfValue]
+  | float s t => cases s <;> simp [switchEval, GoZero.Extracted.C15.reprSwitch, GoVal.deref, GoVal.caseName, evalCase,
+      evFloat, reprOfValue]
+  | _ => simp [switchEval, GoZero.Extracted.C15.reprSwitch, GoVal.deref, GoVal.caseName, evalCase, evString, evBool,
+      evError, evIdent, evBytes, reprOfValue, sprintDefault]
+
+/-- `lang.Repr` end to end: flow (pinned above) + interpreted switch = the model's `reprOf` -/
+theorem tie_langRepr_sem (v : GoVal) (hv : v.valid) :
+    reprOf v = (if v = .nil then "" else
+      match v.stringerText with
+      | some s => s
+      | none => (switchEval GoZero.Extracted.C15.reprSwitch v.deref).getD "?") := by
+  unfold reprOf
+  by_cases hn : v = .nil
+  · simp [hn]
+  · simp only [hn, if_false]
+    cases hs : v.stringerText with
+    | some s => rfl
+    | none => simp [tie_reprSwitch_sem v hv hn]
 
 /-- the default hash is murmur3 `Sum64` (Lean side: `Murmur.sum64`) -/
 theorem tie_hashExprs : GoZero.Extracted.C15.hashExprs = [
